@@ -27,6 +27,8 @@ META = {
 }
 META["technique"] += "; symbolic evaluation of the printers' source over enumerated operator trees, re-parsed with a Pratt model whose table and associativity are read from the parser's source; string writer/reader escape-table agreement; number-form agreement against the lexer's FLOAT/INT rules; printer completeness; identifier-quoting flow from parse_string_or_identifier to __str__"
 META["level_text"] += ' Also decided (R8-R13): no constructor field the renderer reads is missing from __str__ and no behaviour is keyed on token kinds; for every operator tree up to depth 3 the printed condition re-parses to the same tree; string text is written only with escapes the decoder maps back (no Python repr, `${` escaped); float/int literals print in a form the lexer reads back as the same kind and value; names accepted as quoted strings are printed through a quoting helper. Token-level printing of `{% liquid %}` line statements beyond path tokens is not decided.'
+META["technique"] += "; symbolic evaluation of the path printers over 21 root/segment shapes read back with a model of the path grammar; declared-type lint for truthiness tests of optional scalars in printers"
+META["level_text"] += " Also decided (R15, R16): Path.__str__/PathToken.__str__ print every root/segment shape as text that reads back as the same segments; no printer drops a legal empty/zero value of an optional str/int attribute."
 
 TAGWORD = re.compile(r"\{%\x00?\s*([a-z_#]+)")
 
@@ -596,6 +598,10 @@ def run(prog: Program, res: Result) -> None:  # noqa: PLR0912, PLR0915
     # ------------------------------------------------------------------ R14 array literals and template strings
     res.rule("C12.R14", "ArrayLiteral.__str__ keeps the comma that makes a one-item array an array, and TemplateString.__str__ escapes quotes, backslashes and `${` in its literal parts only (symbolic evaluation of both printers, read back with a model of the string scanner)")
     _literal_shapes_rule(prog, res)
+    res.rule("C12.R15", "Path.__str__ and PathToken.__str__, evaluated symbolically on every root/segment shape (plain name, name needing quotes, reserved word alone and as a root with segments, integer root, integer index, quoted segments with either quote, nested path as root and as segment), print text that a model of the path grammar reads back as the same list of segments")
+    _path_shapes_rule(prog, res)
+    res.rule("C12.R16", "a printer never decides by truthiness whether to print an attribute declared `str | None` / `int | None`: the parsed values '' and 0 are legal and falsy, so the test must be `is not None` (otherwise `{% cycle '': a, b %}` is printed without its group name)")
+    _optional_scalar_rule(prog, res)
 
 
 def _grouping_rule(prog: Program, res: Result) -> None:  # noqa: PLR0912, PLR0915
@@ -1160,6 +1166,157 @@ def _literal_shapes_rule(prog: Program, res: Result) -> None:
             res.ok("C12.R14", site, what, f"`{txt}`")
         else:
             res.fail("C12.R14", file=ex.relpath, line=sm.node.lineno, qualname="TemplateString.__str__", construct=f"template string ({label}) printed as `{txt[:60]}`", message=f"a template string with {label} is printed `{txt}`, which reads back as {back} instead of {want_parts}", what=what)
+
+
+def _read_path(txt: str, name_rx: "re.Pattern[str]", reserved: set[str]):  # noqa: ANN202
+    """Model of the path grammar: root (name | [inner]) followed by .name / [inner]; inner = int | quoted | path.
+    Returns the list of segments (str / int / nested list) or a string describing why it is not that path."""
+    pos = 0
+
+    def inner():  # noqa: ANN202
+        nonlocal pos
+        if pos < len(txt) and txt[pos] in "'\"":
+            q = txt[pos]
+            pos += 1
+            out = []
+            while pos < len(txt) and txt[pos] != q:
+                if txt[pos] == "\\" and pos + 1 < len(txt):
+                    out.append({"n": "\n", "t": "\t", "r": "\r"}.get(txt[pos + 1], txt[pos + 1]))
+                    pos += 2
+                else:
+                    out.append(txt[pos])
+                    pos += 1
+            if pos >= len(txt):
+                raise ValueError("unterminated quoted segment")
+            pos += 1
+            return "".join(out)
+        m = re.compile(r"-?[0-9]+").match(txt, pos)
+        if m:
+            pos = m.end()
+            return int(m.group())
+        return path(nested=True)
+
+    def path(nested: bool = False):  # noqa: ANN202
+        nonlocal pos
+        segs: list[object] = []
+        m = name_rx.match(txt, pos)
+        if m:
+            segs.append(m.group())
+            pos = m.end()
+        elif pos < len(txt) and txt[pos] == "[":
+            pos += 1
+            segs.append(inner())
+            if pos >= len(txt) or txt[pos] != "]":
+                raise ValueError("missing ]")
+            pos += 1
+        else:
+            raise ValueError(f"no path at {pos} (a root printed bare that is not a name reads back as a literal)")
+        while pos < len(txt):
+            if txt[pos] == ".":
+                m = name_rx.match(txt, pos + 1)
+                if not m:
+                    raise ValueError("bad property after .")
+                segs.append(m.group())
+                pos = m.end()
+            elif txt[pos] == "[":
+                pos += 1
+                segs.append(inner())
+                if pos >= len(txt) or txt[pos] != "]":
+                    raise ValueError("missing ]")
+                pos += 1
+            else:
+                break
+        if len(segs) == 1 and isinstance(segs[0], str) and segs[0] in reserved and (txt[0] != "["):
+            raise ValueError(f"`{segs[0]}` alone reads back as a keyword, not a variable")
+        return segs
+
+    try:
+        out = path()
+    except ValueError as err:
+        return str(err)
+    if pos != len(txt):
+        return f"trailing text `{txt[pos:]}`"
+    return out
+
+
+def _path_shapes_rule(prog: Program, res: Result) -> None:
+    from sa.symprint import Sym
+    from sa.symprint import SymEval
+    from sa.symprint import Unsupported
+
+    E = SymEval(prog)
+    tok_mod = prog.mod("liquid2/token.py")
+    pat = None
+    for st in tok_mod.tree.body:
+        if isinstance(st, ast.Assign) and any(isinstance(t, ast.Name) and t.id == "RE_PROPERTY" for t in st.targets) and isinstance(st.value, ast.Call) and st.value.args and isinstance(st.value.args[0], ast.Constant):
+            pat = st.value.args[0].value
+    reserved = _reserved_words(tok_mod) if "_reserved_words" in globals() else None
+    if reserved is None:
+        reserved = set()
+        for st in tok_mod.tree.body:
+            if isinstance(st, ast.Assign) and any(isinstance(t, ast.Name) and t.id == "RESERVED_WORDS" for t in st.targets):
+                reserved = {c.value for c in ast.walk(st.value) if isinstance(c, ast.Constant) and isinstance(c.value, str)}
+    if pat is None or not reserved:
+        raise AnalysisError("RE_PROPERTY / RESERVED_WORDS not found in liquid2/token.py")
+    name_rx = re.compile(pat)
+    n = 0
+    for cls in (prog.cls("liquid2.builtin.expressions.Path"), prog.cls("liquid2.token.PathToken")):
+        sm = cls.methods.get("__str__")
+        if sm is None:
+            raise AnalysisError(f"{cls.name}.__str__ vanished")
+
+        def mk(p):  # noqa: ANN001, ANN202
+            return Sym(cls, {"path": [mk(x) if isinstance(x, list) else x for x in p]})  # noqa: B023
+
+        shapes = [["a"], ["a", "b"], ["a b"], ["true"], ["nil", "x"], ["if"], [0], [12, "x"], ["a", 0], ["a", -1], ["a", "b c"], ["a", ["b"]], [["b"]], [["b", "c"], "d"], ["it's"], ["a", 'say "hi"'], ["a", "q\"'"], ["a-b"], ["a", "1x"], ["é"], [""]]
+        for shape in shapes:
+            n += 1
+            E.steps = 0
+            site = f"{cls.file}:{sm.node.lineno} {cls.name}.__str__"
+            what = f"{cls.name} {shape!r} prints as text that reads back as the same path"
+            try:
+                txt = E.to_str(mk(shape))
+            except Unsupported as err:
+                res.fail("C12.R15", file=cls.file, line=sm.node.lineno, qualname=f"{cls.name}.__str__", construct=f"not evaluable on {shape!r}: {err}", message=f"{cls.name}.__str__ could not be evaluated symbolically on {shape!r}: {err} (not decided)", what=what)
+                continue
+            back = _read_path(txt, name_rx, reserved)
+            if back == shape:
+                res.ok("C12.R15", site, what, f"`{txt}`")
+            else:
+                res.fail("C12.R15", file=cls.file, line=sm.node.lineno, qualname=f"{cls.name}.__str__", construct=f"path {shape!r} printed as `{txt}`", message=f"{cls.name}.__str__ prints the path {shape!r} as `{txt}`, which reads back as {back!r}: str(template) no longer denotes the same variable", what=what)
+    res.floor("C12.R15", "path shapes evaluated", n, 30)
+
+
+def _optional_scalar_rule(prog: Program, res: Result) -> None:
+    from sa.types import TypeApprox
+
+    T = TypeApprox(prog)
+    node_base = prog.cls("liquid2.ast.Node")
+    expr_base = prog.cls("liquid2.expression.Expression") if prog.resolve_abs("liquid2.expression.Expression") else None
+    n_tests = 0
+    for fi in sorted(prog.all_functions(), key=lambda f: (f.file, f.node.lineno)):
+        if fi.name != "__str__" or fi.cls is None:
+            continue
+        if not (prog.is_subclass(fi.cls, node_base) or (expr_base is not None and prog.is_subclass(fi.cls, expr_base))):
+            continue
+        for n in ast.walk(fi.node):
+            if not isinstance(n, (ast.If, ast.IfExp)):
+                continue
+            operands = n.test.values if isinstance(n.test, ast.BoolOp) else [n.test]
+            for x in operands:
+                if isinstance(x, ast.UnaryOp) and isinstance(x.op, ast.Not):
+                    x = x.operand
+                if not (isinstance(x, ast.Attribute) and isinstance(x.value, ast.Name) and x.value.id == "self"):
+                    continue
+                n_tests += 1
+                t = T.attr_type(fi.cls, x.attr) or ""
+                parts = {p_.strip() for p_ in t.split("|")}
+                what = f"{fi.qualname}: truthiness test of self.{x.attr} ({t or 'undeclared'})"
+                if "None" in parts and parts & {"str", "int", "float"}:
+                    res.fail("C12.R16", file=fi.file, line=n.lineno, qualname=fi.qualname, construct=f"truthiness of optional scalar self.{x.attr}", message=f"{fi.qualname} prints self.{x.attr} (declared `{t}`) only when it is truthy: the legal parsed value {'0' if 'int' in parts else chr(39)*2} is dropped from str(template), which then parses to a different template", what=what)
+                else:
+                    res.ok("C12.R16", f"{fi.file}:{n.lineno} {fi.qualname}", what, "not an optional str/int (an empty list or absent node prints the same as None)")
+    res.floor("C12.R16", "truthiness tests of attributes in AST printers", n_tests, 15)
 
 
 def _scan_template_string(txt: str):  # noqa: ANN202
